@@ -94,10 +94,23 @@ def gen_cfg(rng, d):
     return cfg
 
 
+def _at(d, p):
+    for k in p:
+        d = d[k]
+    return d
+
+
 def gen_case(rng):
     d = gen_store(rng, rng.randint(1, 4))
     c = {'kind': 'emit', 'store': d, 'cfg': gen_cfg(rng, d) if rng.random() < 0.5 else None, 'sets': []}
     paths = branch_paths(d)
+    if rng.random() < 0.3:
+        leaves = [p for p in paths if p and '$' in str(list(_at(d, p).keys()))]
+        # whole sub-branches of late leaves: every leaf below one randomly chosen branch (or single leaves)
+        deep = [p for p in leaves if len(p) >= 2]
+        if deep:
+            top = rng.choice(deep)[:rng.randint(1, 2)]
+            c['grow'] = [p for p in leaves if p[:len(top)] == top] if rng.random() < 0.7 else [rng.choice(deep)]
     for _ in range(rng.choice([0, 0, 1, 2])):
         c['sets'].append([rng.choice(paths), rng.random() < 0.5])
     return c
@@ -144,9 +157,40 @@ def late_defaults(d):
     return out
 
 
+def split_late(d, late, pre=()):
+    """(the store without the late leaves, the late leaves alone) - same nesting"""
+    early, later = {}, {}
+    for k, v in d.items():
+        if '$leaf' in v or '$qty' in v or '$qser' in v:
+            (later if list(pre + (k,)) in late else early)[k] = v
+        else:
+            e, l = split_late(v, late, pre + (k,))
+            early[k] = e
+            if l:
+                later[k] = l
+    return early, later
+
+
 def build_store(c):
     from vivarium.core.store import Store
-    store = Store(py_store_config(c['store']))
+    if c.get('grow'):
+        # the variables listed in `grow` appear only after a first row has been written (a structural update adding
+        # flagged variables below a branch that had nothing to emit): the row asked for is the one after that
+        early, later = split_late(c['store'], c['grow'])
+        store = Store(py_store_config(early))
+        store.apply_defaults()
+        store.emit_data()
+        # each late part is declared AT the lowest node that exists already (as an `_add` or a process wired into
+        # that node does), not from the root
+        def declare(node, cfg):
+            for k, sub in cfg.items():
+                if k in node.inner and not ('_default' in sub or '_value' in sub):
+                    declare(node.inner[k], sub)
+                else:
+                    node._apply_config({k: sub})
+        declare(store, py_store_config(later))
+    else:
+        store = Store(py_store_config(c['store']))
     late = late_defaults(c['store'])
     if late:
         store._apply_config(late)
